@@ -97,8 +97,18 @@ impl FunctionExpression for ModFn {
             Some(value) if value.is_float() || value.is_integer() => match value {
                 Value::Float(v) if v.is_normal() => TypeDef::float().infallible(),
                 Value::Float(_) => TypeDef::float().fallible(),
-                Value::Integer(v) if v != 0 => TypeDef::integer().infallible(),
-                Value::Integer(_) => TypeDef::integer().fallible(),
+                Value::Integer(v) => {
+                    // The remainder is an integer only when the dividend is an integer as well.
+                    let value_kind = self.value.type_def(state);
+                    let type_def = if !value_kind.contains_float() {
+                        TypeDef::integer()
+                    } else if value_kind.contains_integer() {
+                        TypeDef::float().or_integer()
+                    } else {
+                        TypeDef::float()
+                    };
+                    type_def.maybe_fallible(v == 0)
+                }
                 _ => TypeDef::float().or_integer().fallible(),
             },
             _ => TypeDef::float().or_integer().fallible(),
